@@ -85,6 +85,10 @@ fn real_main() -> i32 {
         Some("errtable") => {
             print!("{}", tables::error_table_lean());
         }
+        Some("apitable") => {
+            exec::install_panic_hook();
+            print!("{}", tables::api_table_lean());
+        }
         Some("check") => {
             // kharness check <prop> <tier> <seed> [corpus-dir]
             let prop = &args[2];
